@@ -77,6 +77,9 @@ pub fn cfg_for(driver: &str, tier: &str) -> Option<(Cfg, u32)> {
             c.cb_cause2 = true;
             c.cb_insert = true;
             c.cb_remove_self_insert = true;
+            // fd sources are registered through a Dispatcher the harness keeps: a removed source
+            // that the loop forgot to unregister then stays visible in the kernel table
+            c.reconf = vec![(true, false, 0)];
             c.check_epoll = true;
             c.prune = true;
             c.final_dispatches = 1;
@@ -223,6 +226,8 @@ pub fn cfg_for(driver: &str, tier: &str) -> Option<(Cfg, u32)> {
             c.depth = if q { 6 } else { 8 };
             c.top_update = true;
             c.cb_cause = true;
+            c.exec_pending = true;
+            c.tag_all = Some("C10");
             c.check_epoll = true;
             c.check_wait = true;
             c.top_dispatch_none = true;
@@ -254,6 +259,8 @@ pub fn cfg_for(driver: &str, tier: &str) -> Option<(Cfg, u32)> {
             c.cb_remove_self_insert = true;
             c.cb_cause2 = true;
             c.cb_idle = true;
+            c.check_epoll = true;
+            c.tag_all = Some("C08");
             c.cb_set_deadline = vec![2];
             c.prune = false;
             c.final_dispatches = 2;
@@ -295,7 +302,7 @@ pub fn run(args: &Args) -> Option<Report> {
         max_dev,
         max_depth: cfg.depth,
         shard: args.shard,
-        shard_depth: 2,
+        shard_depth: 3,
         wall_cap_s: args.opt_u("wall", if args.tier == "quick" { 40 } else { 1500 }) as f64,
         exec_cap: args.opt_u("execs", u64::MAX / 2),
         prune: cfg.prune,
